@@ -185,6 +185,8 @@ impl IsaStringNode {
 impl Aml for IsaStringNode {
     fn to_aml_bytes(&self, sink: &mut dyn AmlSink) {
         // ISA string length (including NULL terminator)
+        // node length and string length are 16-bit fields
+        assert!(self.len() <= u16::MAX as usize);
         let strlen = self.string.len() as u16 + 1;
         let padding_reqd = strlen % 2 == 1;
         sink.word(RhctNodeType::IsaString as u16);
@@ -241,6 +243,8 @@ impl Aml for HartInfoNode {
     // NOTE: assumes 1 handle for now
     fn to_aml_bytes(&self, sink: &mut dyn AmlSink) {
         let ty = RhctNodeType::HartInfo as u16;
+        // node length is a 16-bit field
+        assert!(self.len() <= u16::MAX as usize);
         sink.word(ty);
         sink.word(self.len() as u16);
         sink.word(Self::REVISION);
